@@ -190,36 +190,11 @@ def post_odd(value, result):
 X = 'pycel.excellib:'
 num = Union(Int(), Float())
 
-# the two helpers through which CEILING / FLOOR work on the numbers AS WRITTEN (Fraction(repr(x))): in the real-number
-# model of the proofs (A-FLOAT, A-REPR: the shortest rendering of x denotes x) they are plain division / multiplication;
-# that they are decimal-exact in binary floating point is what the stand-in checks on decimal grids
-
-
-def post_decimal_ratio(number, significance, result):
-    return result == number / significance
-
-
-def pre_decimal_ratio(number, significance):
-    return significance != 0
-
-
-def post_decimal_multiple(significance, count, result):
-    return result == significance * count and implies(isinstance(significance, int), isinstance(result, int))
-
-
-def pre_decimal_multiple(significance, count):
-    return True
-
-
-RATIO = Contract(X + '_decimal_ratio', 'C19', params=dict(number=num, significance=num), requires=[pre_decimal_ratio],
-                 ensures=[post_decimal_ratio], returns=Float(), klass='BOUNDED',
-                 notes='Fraction(repr(x)) / Fraction(repr(s)): exact rational of the shortest renderings (A-REPR); a real '
-                       'in the proofs; decimal grids in the stand-in')
-MULTIPLE = Contract(X + '_decimal_multiple', 'C19', params=dict(significance=num, count=Int()),
-                    requires=[pre_decimal_multiple], ensures=[post_decimal_multiple], returns=num, klass='BOUNDED',
-                    notes='float(Fraction(repr(s)) * k): the float nearest to the decimal product (A-REPR)')
-ASSUMED = [RATIO, MULTIPLE]
-HELPERS = [X + '_decimal_ratio', X + '_decimal_multiple']
+# CEILING / FLOOR work on the numbers AS WRITTEN through two helpers (Fraction(repr(x))): they are executed inline; in the
+# real-number model of the proofs (A-FLOAT, A-REPR: the shortest rendering of x denotes x) Fraction(repr(x)) is x, so the
+# clauses are about real division / multiplication; that the helpers are decimal-exact in binary floating point is what
+# the stand-in checks on decimal grids
+HELPERS = []
 digits = Union(*[Const(d) for d in range(-4, 7)])
 
 CONTRACTS = [
